@@ -138,6 +138,12 @@ func scenario(k int, r *Rng, p GenParams) (dis []DInput, ops []Op, det bool) {
 			{Kind: OpDelete, ByID: true, Sel: Selector{Kind: SID, N: 9}, T: TOpt{Kind: TExplicit, T: 946684800}},
 			{Kind: OpDelete, ByID: true, Sel: Selector{Kind: SID, N: 2}, T: TOpt{Kind: TDefault}},
 			{Kind: OpAdd, DI: obj(r, DataOCIBlob, small(), 1, 0), T: TOpt{Kind: TDefault}},
+			// an explicit time makes the image non-deterministic, a deterministic operation makes
+			// it deterministic again (nil ID, zero times): default options then write zero times
+			{Kind: OpSetMeta, ID: 1, Md: Meta{Kind: MdRaw, Raw: GenContent(r, 4)}, T: TOpt{Kind: TExplicit, T: 1700000001}},
+			{Kind: OpSetMeta, ID: 1, Md: Meta{Kind: MdRaw, Raw: GenContent(r, 5)}, T: TOpt{Kind: TDeterministic}},
+			{Kind: OpSetMeta, ID: 1, Md: Meta{Kind: MdRaw, Raw: GenContent(r, 6)}, T: TOpt{Kind: TDefault}},
+			{Kind: OpAdd, DI: obj(r, DataGeneric, small(), 1, 0), T: TOpt{Kind: TDefault}},
 		}
 	default:
 		// one of each kind of object added through AddObject, read back and selected
